@@ -6,6 +6,7 @@ from vlib import *
 
 def run_histories(ck, tree, hists, label="hist"):
     runs = []
+    hangs = []
     t0 = time.time()
     for h in hists:
         work = ck.scratch.sub("qs")
@@ -18,7 +19,15 @@ def run_histories(ck, tree, hists, label="hist"):
             msg = str(e)
             if "no quiescence" in msg:
                 # the daemon never blocks: busy loop (C16) - reported through the trace verdict below
-                res = {"ev": [dict_blank("busyloop")], "left": -1, "addr": {}, "nraw": 0}
+                res = {"ev": [dict_blank("busyloop")], "left": -1, "addr": {}, "nraw": 0, "fs": []}
+            elif "did not reach a gate point" in msg:
+                # a process stopped making system calls for 20 s (spinning or stuck): a liveness failure that only the
+                # checks whose property is about progress (C15, C16) report; elsewhere the history is set aside
+                hangs.append(h.get("id"))
+                log("history %s: %s" % (h.get("id"), msg))
+                res = {"ev": [dict_blank("hang")], "left": -1, "addr": {}, "nraw": 0, "fs": []}
+                if len(hangs) > 5:
+                    raise Infra("%d histories hung: %s" % (len(hangs), hangs))
             else:
                 raise Infra("history %s: %s" % (h.get("id"), msg))
         res["h"] = h
@@ -73,7 +82,8 @@ def model_configs(prop, thorough):
 ALSO = {"C03:MarkAtUnknownRecord": ("C04",),              # a misplaced mark does not protect the finished recipient from a retry
         "C02:MessageNumberSharedByTwoMessages": ("C03",),
         "C14:BounceRecordRemovedBeforeNoticeQueued": ("C03",),
-        "C03:MessageRemovedWithRecipientNeitherDeliveredNorBounced": ("C14",)}
+        "C03:MessageRemovedWithRecipientNeitherDeliveredNorBounced": ("C14",),
+        "C15:DaemonStopsMakingProgress": ("C16",)}
 
 
 def report(ck, prop, runs, bad):
